@@ -475,4 +475,133 @@ Section PurePulse.
       assert (Hpx' : p <> x) by (intro; subst; apply (Hns2 x); congruence).
       apply (resched_cur f (nd s2) p x LRecalc m3); auto; congruence.
   Qed.
+
+  (* with callbacks that perform no operations a time stops being valid only by firing: the log is complete *)
+  Definition ev_relc (now : N) (s s' : state) : Prop :=
+    exists d, evs s' = d ++ evs s /\ valid_mono (nd s) (nd s') /\
+      (forall e, In e d -> exists y k, e = EPulse y k now (sched (nd s y)) /\ (sched (nd s y) <= now)%N /\
+                                       valid (nd s y) = true /\ valid (nd s' y) = false) /\
+      NoDup (map ev_node d) /\
+      (forall y, valid (nd s y) = true -> valid (nd s' y) = false -> exists k, In (EPulse y k now (sched (nd s y))) d).
+
+  Lemma ev_relc_quiet now s s' :
+    evs s' = evs s -> valid_mono (nd s) (nd s') -> (forall y, valid (nd s' y) = valid (nd s y)) -> ev_relc now s s'.
+  Proof.
+    intros He Hv Hsame. exists []. split; [assumption|]. split; [assumption|]. split; [intros e []|].
+    split; [constructor|]. intros y H1 H2. rewrite Hsame in H2. congruence.
+  Qed.
+
+  Lemma ev_relc_trans now s1 s2 s3 : ev_relc now s1 s2 -> ev_relc now s2 s3 -> ev_relc now s1 s3.
+  Proof.
+    intros (d1 & He1 & Hv1 & Hd1 & Hn1 & Hc1) (d2 & He2 & Hv2 & Hd2 & Hn2 & Hc2).
+    destruct (ev_rel_trans now s1 s2 s3) as (d & He & Hv & Hd & Hn).
+    { exists d1. auto. } { exists d2. auto. }
+    exists (d2 ++ d1). split; [rewrite He2, He1; now rewrite app_assoc|].
+    split; [eapply valid_mono_trans; eauto|]. split; [|split].
+    - intros e Hin. apply in_app_iff in Hin. destruct Hin as [Hin|Hin].
+      + destruct (Hd2 e Hin) as (y & k & -> & Hle & Hvy & Hvy'). destruct (Hv1 y Hvy) as [Hv0 Hs0].
+        exists y, k. rewrite <- Hs0. auto.
+      + destruct (Hd1 e Hin) as (y & k & -> & Hle & Hvy & Hvy'). exists y, k. split; [reflexivity|].
+        split; [assumption|]. split; [assumption|].
+        destruct (valid (nd s3 y)) eqn:Hv3; [|reflexivity]. destruct (Hv2 y Hv3) as [Hc _]. congruence.
+    - rewrite map_app. apply nodup_app_intro; auto.
+      intros n Hn2' Hn1'. apply in_map_iff in Hn2'. apply in_map_iff in Hn1'.
+      destruct Hn2' as (e2 & <- & Hin2). destruct Hn1' as (e1 & Heq & Hin1).
+      destruct (Hd2 e2 Hin2) as (y2 & k2 & -> & _ & Hvy2 & _).
+      destruct (Hd1 e1 Hin1) as (y1 & k1 & -> & _ & _ & Hvy1). simpl in Heq. subst y1. congruence.
+    - intros y Hy1 Hy3. destruct (valid (nd s2 y)) eqn:Hy2.
+      + destruct (Hc2 y Hy2 Hy3) as (k & Hin). destruct (Hv1 y Hy2) as [_ Hs0]. rewrite Hs0 in Hin.
+        exists k. apply in_app_iff. now left.
+      + destruct (Hc1 y Hy1 Hy2) as (k & Hin). exists k. apply in_app_iff. now right.
+  Qed.
+
+  Lemma pulse_aux_evc now : forall f G s x s',
+    Good G (nd s) -> pulse_aux pl f now s x = Some s' -> ev_relc now s s'.
+  Proof.
+    induction f as [|f IH]; intros G s x s' Hg H; [discriminate|]. simpl in H.
+    destruct (pulse_self pl f s x now) as [s1|] eqn:Hs; [|discriminate].
+    destruct (loop_sched (pulse_aux pl f now) f x now s1) as [s2|] eqn:Hl; [|discriminate].
+    destruct (resched_up f (nd s2) x) as [m3|] eqn:Hr; [|discriminate]. inversion H; subst s'. clear H.
+    pose proof (pulse_self_good pl G f s x now s1 Hg Hs) as Hg1.
+    set (G' := fun y => G y \/ y = x) in *.
+    assert (He1 : ev_relc now s s1).
+    { destruct (pulse_self_ev pl G f s x now s1 Hg Hs) as (d & He & Hv & Hd & Hn).
+      exists d. split; [assumption|]. split; [assumption|]. split; [assumption|]. split; [assumption|].
+      intros y Hy1 Hy2. destruct (pulse_self_pure f s x now s1 Hs) as (Ho & _ & _ & _ & _ & Hvx).
+      destruct (Nat.eq_dec y x) as [->|Hyx]; [|rewrite Ho in Hy2 by assumption; congruence].
+      unfold pulse_self in Hs. rewrite Hy1 in Hs. simpl in Hs.
+      apply Hvx in Hy2. destruct Hy2 as [F|Hle]; [congruence|].
+      apply N.leb_le in Hle. rewrite Hle in Hs. rewrite pl_pure in Hs. simpl in Hs. inversion Hs; subst s1.
+      simpl in He. exists (npl (nd s x)).
+      assert (d = [EPulse x (npl (nd s x)) now (sched (nd s x))]).
+      { apply (app_inv_tail (evs s)). simpl. now rewrite <- He. }
+      subst d. now left. }
+    assert (H2 : Good G' (nd s2) /\ ev_relc now s1 s2).
+    { apply (loop_sched_ind (fun si => Good G' (nd si) /\ ev_relc now s1 si) (pulse_aux pl f now)) with (k := f) (x := x) (now := now) (s := s1); [| |exact Hl].
+      - intros s0 c s3 [Hp He] Hc. split; [eapply pulse_aux_good; eauto|].
+        eapply ev_relc_trans; [exact He|]. eapply IH; eauto.
+      - split; [assumption|]. apply ev_relc_quiet; [reflexivity|apply valid_mono_refl|reflexivity]. }
+    destruct H2 as [Hg2 He2].
+    eapply ev_relc_trans; [exact He1|]. eapply ev_relc_trans; [exact He2|].
+    pose proof (c_wf _ (i_core _ (g_inv _ _ Hg2))) as Hwf2.
+    apply ev_relc_quiet; [reflexivity| |]; simpl.
+    - eapply resched_up_valid_mono; eauto.
+    - intro y. unfold resched_up in Hr. destruct (parent (nd s2 x)) as [p|] eqn:Hp; [|inversion Hr; subst; reflexivity].
+      assert (Hns2 : forall z, parent (nd s2 z) <> Some z) by apply (wf_noself _ _ Hwf2).
+      assert (Hpx : p <> x) by (intro; subst; now apply (Hns2 x)).
+      now destruct (resched_scalars f (nd s2) p x LRecalc m3 Hp Hpx Hns2 Hr y) as (_&_&_&?&_).
+  Qed.
+
+  (* pulse_exact: on a freshly recalculated tree (root r settled, its aggregate exact) whose Pulse() callbacks
+     do not restructure anything, the manager's pulse sweep at time [now] (< MUSCLE_TIME_NEVER) calls Pulse() on
+     EXACTLY the nodes attached below r whose requested time is at or before [now]: each of them once, with
+     (now, the time it asked for), no other node; afterwards each of them is invalid and sits on its parent's
+     needs-recalc list, i.e. will be asked for its next time by the next recalculation sweep *)
+  Theorem pulse_exact f s r now s' :
+    (now < NEVER)%N ->
+    Good nobody (nd s) -> is_root (nd s) r = true -> settled (nd s) r ->
+    agg (nd s r) = N.min (sched (nd s r)) (first_sched_agg (nd s) r) ->
+    top_pulse pl f s r now = Some s' ->
+    Good nobody (nd s') /\
+    exists d, evs s' = d ++ evs s /\ NoDup (map ev_node d) /\
+      (forall e, In e d -> exists y k, e = EPulse y k now (sched (nd s y)) /\ desc (nd s) r y /\ (sched (nd s y) <= now)%N) /\
+      (forall y, desc (nd s) r y -> (sched (nd s y) <= now)%N -> exists k, In (EPulse y k now (sched (nd s y))) d) /\
+      (forall y, desc (nd s) r y -> (sched (nd s y) <= now)%N ->
+                 valid (nd s' y) = false /\ (parent (nd s' y) <> None -> cur (nd s' y) = LRecalc)).
+  Proof.
+    intros Hnow Hg Hr Hset Hagg H.
+    pose proof (top_pulse_good pl f s r now s' Hg H) as Hg'. split; [assumption|].
+    assert (Hval : forall y, desc (nd s) r y -> valid (nd s y) = true).
+    { intros y Hd. now destruct (settled_desc (nd s) r Hg Hset y Hd) as [[? _] _]. }
+    assert (Hsu : forall y, desc (nd s) r y -> y <> r -> su (cur (nd s y))).
+    { intros y Hd. now destruct (settled_desc (nd s) r Hg Hset y Hd) as [_ ?]. }
+    assert (HLB : forall c y, desc (nd s) r c -> desc (nd s) c y -> (agg (nd s c) <= sched (nd s y))%N).
+    { intros c y Hc Hy. destruct (settled_desc (nd s) r Hg Hset c Hc) as [Hsc Hsuc].
+      assert (Hex : agg (nd s c) = N.min (sched (nd s c)) (first_sched_agg (nd s) c)).
+      { destruct (Nat.eq_dec c r) as [->|Hne]; [assumption|]. apply (i_k3 _ (g_inv _ _ Hg)); [apply Hsc|auto]. }
+      destruct (agg_lower_bound (nd s) c Hg Hsc Hex y Hy). lia. }
+    assert (Hreq : forall y, valid (nd s' y) = false -> parent (nd s' y) <> None -> cur (nd s' y) = LRecalc).
+    { intros y Hv Hp. destruct (g_k2 _ _ Hg' y (fun F => F) Hv) as [Hc|Hc]; [assumption|].
+      destruct (parent (nd s' y)) as [p|] eqn:Hpy; [|congruence].
+      exfalso. eapply (i_listed _ (g_inv _ _ Hg')); eauto. }
+    unfold top_pulse in H. rewrite Hr in H.
+    destruct (N.leb_spec (agg (nd s r)) now) as [Hle|Hgt].
+    - destruct (pulse_aux_evc now f nobody s r s' Hg H) as (d & He & Hv & Hd & Hn & Hc).
+      destruct (pulse_aux_exact now Hnow f nobody s r s' Hg Hval Hsu HLB H) as [Hex _].
+      pose proof (pulse_aux_pframe now f nobody s r s' Hg H) as (_ & Hfv & _).
+      exists d. split; [assumption|]. split; [assumption|]. split; [|split].
+      + intros e Hin. destruct (Hd e Hin) as (y & k & -> & Hdue & Hv1 & Hv2). exists y, k.
+        split; [reflexivity|]. split; [|assumption].
+        destruct (c_acyc _ (i_core _ (g_inv _ _ Hg))) as (rk & B & Hrk & _).
+        destruct (is_anc_spec (nd s) rk Hrk (S (rk y)) r y) as (b & _ & Hb); [lia|].
+        destruct b; [now apply Hb|]. exfalso.
+        assert (Hnd : ~ desc (nd s) r y) by (intro F; apply Hb in F; discriminate).
+        rewrite (Hfv y Hnd) in Hv2. congruence.
+      + intros y Hdy Hdue. apply Hc; [now apply Hval|]. now apply Hex.
+      + intros y Hdy Hdue. assert (Hvy : valid (nd s' y) = false) by now apply Hex. split; [assumption|now apply Hreq].
+    - inversion H; subst s'. exists []. split; [reflexivity|]. split; [constructor|]. split; [intros e []|].
+      assert (Hno : forall y, desc (nd s) r y -> (sched (nd s y) <= now)%N -> False).
+      { intros y Hdy Hdue. pose proof (HLB r y (desc_self _ _) Hdy). lia. }
+      split; intros y Hdy Hdue; exfalso; eauto.
+  Qed.
 End PurePulse.
